@@ -18,7 +18,8 @@ Members(r) == IF r.svc = "multi" THEN r.ms ELSE <<r>>
 \* Connected messaging: a session may open (Forward Open) and close (Forward Close) connections, named by the connection
 \* serial IT chose -- two sessions may well choose the same serial -- and send requests over them.  The connection table is
 \* shared state like the tags; a session's connections are its own: nothing another session does opens or closes them.
-IsConn(r) == r.svc \in {"fwdopen", "fwdclose"}
+\* (svc "end": the session ends -- its connection is closed by the peer; whatever connections it still has open are closed with it)
+IsConn(r) == r.svc \in {"fwdopen", "fwdclose", "end"}
 
 CONSTANTS CC,        \* configuration (tags, budget)
           Mem0,      \* initial memory
@@ -42,6 +43,7 @@ Effect(s) == /\ phase[s] = "busy"
                 /\ done[s] < Len(ms)
                 /\ IF IsConn(ms[done[s] + 1])
                    THEN /\ ctab' = IF ms[done[s] + 1].svc = "fwdopen" THEN ctab \cup { <<s, ms[done[s] + 1].fo.serial>> }
+                                   ELSE IF ms[done[s] + 1].svc = "end" THEN { c \in ctab : c[1] # s }
                                    ELSE ctab \ { <<s, ms[done[s] + 1].fo.serial>> }
                         /\ got' = [got EXCEPT ![s] = Append(@, [k |-> "conn", st |-> 0, ext |-> <<>>, data |-> <<>>, mem |-> cmem])]
                         /\ UNCHANGED cmem
